@@ -51,6 +51,18 @@ Proof.
   intros TH TO. apply (incremental_equals_scratch gen wck RC OC P sf HS HWF HC HW HOC always fuel fuel0 h ops TH TO).
   apply (history_td_no_bug4 RC OC P always fuel h init_world TH J_init).
 Qed.
+(* C02, last clause *)
+Theorem incremental_executes_subset_all fuel fuel0 h ops :
+  td_hist h -> td_only ops ->
+  let w := snd (run_history RC OC P always fuel init_world h) in
+  let ra := run_session RC OC P always fuel (new_session w) ops in
+  let rb := run_session RC OC P always fuel0 (new_session (fresh_of w)) ops in
+  Forall is_done (fst ra) -> Forall is_done (fst rb) ->
+  forall x, In x (execs (rev (trace (snd ra)))) -> In x (execs (rev (trace (snd rb)))).
+Proof.
+  intros TH TO. apply (incremental_executes_subset gen wck RC OC P sf HS HWF HC HW HOC always fuel fuel0 h ops TH TO).
+  apply (history_td_no_bug4 RC OC P always fuel h init_world TH J_init).
+Qed.
 End Cls.
 
 Section Cls2.
